@@ -70,6 +70,10 @@ CLAIMED = {
          "the triple, first-seen guard = store key, fresh per-shape storage, read with the statement's direction), twins, influence policy of "
          "the two options. Longest-stem maximality over arbitrary instance sets is not separately decided", "4 C17",
          "decision tables by abstract evaluation (regex constant folded), def-use pairing lint at the example sites, twin comparison, information-flow policy (R-TABLE, R-CONST, R-FLOW, R-PURE, R-TWIN, R-EFFECT)"),
+ "C15": ("NARROW structural claim about endpoint code that cannot run offline: cache-flag polarity at every construction site, the flag has no "
+         "model effect, cached variants fill-mark-replay without yielding while storing, remote/local and p_o/s_p twins, IRI bindings cornered "
+         "by binding type, both passes receive the same options. Equality with local extraction, replay fidelity and query counts are NOT decided", "4 C15",
+         "value-flow path parity, information-flow policy, statement-order lint, twin comparison, decision table, call-site agreement lint (R-PLUMB, R-EFFECT, R-ORDER, R-TWIN, R-TABLE)"),
 }
 NA_REASON = {
  "C08": "relates the outputs of different parsers (rdflib readers, two hand-written scanners, TSV splitter, decompressors) on "
